@@ -113,6 +113,16 @@ Theorem C18_scope_keyword_not_inside_identifier :
 Proof. exact find_kw_not_inside_identifier. Qed.
 Print Assumptions C18_scope_keyword_not_inside_identifier.
 
+(** a decorator call spanning several lines above the header (since fix 8c78806): its argument
+    lines are walked over, the decorator and its scope are found *)
+Lemma C18_multi_line_decorator_old_refuted :
+  let above := [utf8_decode ")"; utf8_decode "    scope=""module"","; utf8_decode "@pytest.fixture("; utf8_decode "import pytest"] in
+  has_fixture_decorator_above_one_line above = false /\
+  has_fixture_decorator_above above = true /\
+  scope_from_text_one_line above = None /\
+  scope_from_text above = Some 2.
+Proof. repeat split; vm_compute; reflexivity. Qed.
+
 (** the parameters typed so far, on an instance *)
 Example C18_declared_from_text_example :
   declared_from_text [utf8_decode "    def test_x(db, client: int = 3, *, cfg"] = ["db"; "client"; "cfg"].
